@@ -39,6 +39,25 @@ def prophecyWF (p : Prophecy) : Bool := decide (ProphecyWF p)
 /-- validators known to staking have distinct operator addresses -/
 def ValsWF (vals : List Validator) : Prop := (vals.map (·.id)).Nodup
 
+/-- an administrative operation on the whitelist that took effect: the genesis list, an accepted add, an accepted remove -/
+inductive WlOp where
+  | set (l : List Nat)
+  | add (v : Nat)
+  | remove (v : Nat)
+  deriving Repr
+
+/-- Who is whitelisted according to the history of administrative operations that took effect (the harness's ledger, not
+    the stored list): the genesis list, plus every validator added, minus every validator removed since — a remove takes
+    the validator out however often the list named it. -/
+def wlLedger (ops : List WlOp) : List Nat :=
+  ops.foldl (fun cur op => match op with
+    | .set l => l
+    | .add v => cur ++ [v]
+    | .remove v => cur.filter (fun a => a != v)) []
+
+/-- the stored whitelist names exactly the validators the ledger names (as sets) -/
+def sameMembers (stored ledger : List Nat) : Bool := stored.all ledger.contains && ledger.all stored.contains
+
 /-- an accepted claim comes from a validator that is in the (stored) whitelist and bonded -/
 def acceptedClaimantOK (vals : List Validator) (wl : List Nat) (v : Nat) : Bool := inWhiteList wl v && checkActive vals v
 
